@@ -25,7 +25,7 @@ ASSUMPTIONS = ['numpy/random global RNGs seeded by the harness make each run rep
 
 def plan(tier):
     return {'cases_per_shard': 260 if tier == 'quick' else 5000,
-            'time_cap_s': 45 if tier == 'quick' else 560}
+            'time_cap_s': 90 if tier == 'quick' else 560}
 
 
 def run_case(cs, ctx):
